@@ -17,7 +17,8 @@ by induction on the event stream):
     r an input port                                          -> rejected
     writer(r) defined (ANY previous writer, also b itself)   -> rejected
     otherwise                                                -> writer(r) := b
-  non-output ports of an instance are not drivers.
+  an INOUT port of an instance connected to an input port of the entity       -> rejected (it could drive the input)
+  other non-output ports of an instance are not drivers (inout ports share a resolved bus with the other drivers).
 Consequence (induction): normal return => every root has at most one writer
 among contexts and instance outputs, variables / intermediates are used by at
 most one context, no input port is written.
@@ -355,6 +356,9 @@ def add_instance_case(ports):
             want = "ok"
             driven = []
             for n, (d, k, same) in zip(actuals, ports):
+                if d == "inout" and k == "in-port":
+                    want = "reject"  # an inout port can drive what it is connected to: an input port of the entity is never driven
+                    break
                 if d != "out":
                     continue
                 root = actuals[n].fields["_root"]
@@ -388,6 +392,7 @@ for combo in (
     [("out", "signal", False), ("out", "signal", True)], [("out", "signal", False), ("out", "signal", False)],
     [("in", "signal", False), ("out", "signal", True)], [("out", "signal", False), ("in", "signal", True)],
     [("out", "out-port", False), ("out", "in-port", False)],
+    [("inout", "in-port", False)], [("inout", "out-port", False)], [("inout", "inout-port", False)], [("in", "in-port", False)], [("in", "signal", False), ("inout", "in-port", False)],
 ):
     add_instance_case(combo)
 
